@@ -23,6 +23,7 @@ import (
 
 	"perun.network/go-perun/channel"
 	"perun.network/go-perun/log"
+	"perun.network/go-perun/simhook"
 	"perun.network/go-perun/watcher"
 	"perun.network/go-perun/wire"
 	"polycry.pt/poly-go/sync"
@@ -469,6 +470,7 @@ func (c *Channel) ensureRegistered(ctx context.Context) error {
 	}()
 
 	// Register.
+	simhook.Yield("client.ensureRegistered.beforeRegisterDispute")
 	err := c.registerDispute(ctx)
 	if err != nil {
 		// Only log because channel may already be registered.
